@@ -14,6 +14,7 @@ PROPS['C10'] = dict(
     level='proof',
     composition='Verus lemmas L3 (contracts/lemmas.vtmpl: lemma_reuse_without_reader, lemma_retained_under_reader, lemma_reuse_resumes) on top of L2',
     units=['freelist', 'txn', 'commit', 'open', 'lemmas', 'nodeio'],
+    bounded_quick=[('commit', 'that the high-water mark of a whole HISTORY reaches a plateau (rollbacks, reopen, a large scattered free list, multi-page values) is a statement over many commits; per call it is F1/F2/X1 (proved). cex/commit.rs runs such histories on the real crate and compares the high-water mark early and late')],
     explanation='Freed space is reused: release is an equality (F2: nothing kept back, nothing released early), the bound a writer passes is the oldest open reader or itself (X1) '
                 'and a closing reader removes exactly its own id keeping the list ascending (X2); allocate is first-fit and COMPLETE (F1: None only if no run exists) and the file is '
                 'extended only on None (T1); what is persisted is free + pending with exact length/multiset accounting (F4, W1 w6) and the old free-list run itself is released; '
@@ -68,9 +69,10 @@ A_PAGEMUT = 'in-memory page construction (prelude/pagemut.rs): the header record
 
 PROPS['C02'] = dict(
     level='proof',
-    composition='MACHINE-CHECKED: theorem_crash_atomicity / corollary_durable_after_ok (unit crash, prelude/crash_spec.rs) from the clause predicates (w1)-(w3) of write_data (lemma_clauses_from_contract) and the recovery oracle select_header of DBInner::meta; remaining paper steps: allocated pages are disjoint from the old tree (T1/F1 + INV-live, lemma L2), H1 for a torn header',
+    composition='MACHINE-CHECKED: theorem_crash_atomicity / corollary_durable_after_ok (unit crash, prelude/crash_spec.rs) from the clause predicates (w1)-(w3) of write_data (lemma_clauses_from_contract) and the recovery oracle select_header of DBInner::meta; remaining paper steps: allocated pages are disjoint from the old tree (T1/F1 + INV-live, lemma L2). H1 (a torn header slot is valid only if complete or unchanged) is the theorem\'s hypothesis and is FALSE in one reachable state: the first commit after a recovery from a torn header write reuses the dead commit\'s transaction id and slot (known finding E14, reproduced by cex_commit_two_power_losses on every run)',
     units=['commit', 'freelist', 'meta', 'db', 'crash', 'open'],
     kani_quick=['layout'],
+    bounded_quick=[('commit', 'H1, the hypothesis of the crash theorem (a header slot caught half-written is valid only if complete or unchanged), is a statement about the checksum and about what the slot held BEFORE the write; it cannot be a postcondition of any function.  cex/commit.rs builds the crash images of real commits (every prefix of the writes, subsets of the unsynced writes, the header torn at 8-byte words, also across TWO consecutive power losses) and reopens each; where H1 fails on the real code (finding E14) the image is reported under its own key')],
     explanation='Crash atomicity: TxInner::write_data is verified on its real body against a file stand-in whose every operation may fail: '
                 '(w1) every data write targets a page allocated in this transaction (T1/F1: from the free set or fresh, never a live page), '
                 '(w2) one header write, to the other slot, carrying exactly the transaction meta with a fresh checksum, and it is the last write, '
